@@ -64,7 +64,7 @@ import shutil
 from vlib import env
 
 THEOREMS = [
-    "commitTree_get", "commit_selected", "commit_unselected", "commit_wf", "commit_paths_selected",
+    "commitTree_get", "commit_selected", "commit_unselected", "commit_wf", "commit_paths_agree", "commit_paths_selected",
     "commit_all", "commit_only_changed", "commit_excluded_untouched", "status_after_commit",
     "closure_insufficient_witness",
     "git_written", "git_untouched", "git_deleted",
@@ -185,7 +185,14 @@ class W:
         """choose one op from the observed state; None if the draw is not applicable"""
         vp = self.versioned()
         isdir = lambda p: os.path.isdir(self.full(p)) and not os.path.islink(self.full(p))
-        dirs = [""] + [p for p in vp if isdir(p)]
+        if self.fmt == "bzr":
+            with self.wt.lock_read():
+                vdirs = set(p for p, ie in self.wt.iter_entries_by_dir() if ie.kind == "directory")
+        else:
+            vdirs = set(vp)
+        # new entries only below directories that are versioned as directories (adding below a path whose
+        # versioned kind is not "directory" is C09 / C11 territory)
+        dirs = [""] + [p for p in vp if isdir(p) and p in vdirs]
         kind = rng.choice(["addfile", "addfile", "mkdir", "symlink", "modify", "modify", "chmod", "rename", "rename",
                            "rename", "remove", "remove", "delete", "kind", "kind", "readd"])
 
@@ -236,10 +243,14 @@ class W:
         return None
 
     def gen_ops(self, rng, n, script):
-        for _ in range(n):
+        done = 0
+        for _ in range(4 * n):
+            if done >= n:
+                break
             op = self.gen_op(rng)
             if op is None:
                 continue
+            done += 1
             self.apply_safe(op)
             script.append(op)
 
@@ -282,6 +293,43 @@ def snap_rev(tree):
             out[ie.file_id.decode()] = dict(parent=ie.parent_id.decode() if ie.parent_id else None, name=ie.name,
                                             kind=k, content=c, exec=x)
     return out
+
+
+def snap_rev_lenient(tree):
+    """id-space snapshot that does not walk the tree (works on an inventory whose shape is broken)"""
+    out = {}
+    repo = tree._repository
+    with tree.lock_read():
+        inv = tree.root_inventory
+        for fid in inv.iter_all_ids():
+            ie = inv.get_entry(fid)
+            c, x = "", False
+            if ie.kind == "file":
+                rec = next(repo.texts.get_record_stream([(fid, ie.revision)], "unordered", True))
+                c = rec.get_bytes_as("fulltext").decode()
+                x = bool(ie.executable)
+            elif ie.kind == "symlink":
+                c = ie.symlink_target
+            out[fid.decode()] = dict(parent=ie.parent_id.decode() if ie.parent_id else None, name=ie.name,
+                                     kind=ie.kind, content=c, exec=x)
+    return out
+
+
+def probe_validation():
+    """does the code refuse a delta that leaves an unrecorded child below an entry turned into a file?
+    (selects the model variant; see excluded_child_corrupt_witness)"""
+    w = W("bzr")
+    try:
+        for op in [("mkdir", "d", "p1"), ("mkdir", "d/sub", "p2"), ("addfile", "d/sub/f", "1", False, "p3"), ("commit", 1),
+                   ("remove", "d/sub/f", False), ("kind", "d/sub", "file")]:
+            w.apply(op)
+        try:
+            w.wt.commit("probe", exclude=["d/sub/f"])
+        except Exception as e:  # noqa
+            return "strict" if err_kind(e) == "E:InconsistentDelta" else "strict?" + type(e).__name__
+        return "lax"
+    finally:
+        shutil.rmtree(w.base, ignore_errors=True)
 
 
 def disk_node(full):
@@ -386,12 +434,12 @@ KIND = {"file": "f", "directory": "d", "symlink": "l", "missing": "m"}
 
 def enc_tree(t):
     out = []
-    for i in sorted(t):
+    for i in t:
         e = t[i]
         k = KIND[e["kind"]]
         out.append(":".join([i, e["parent"] or "~", e["name"] or ".", k,
                              "-" if k in "dm" else hx(e["content"]), "T" if e["exec"] else "F"]))
-    return ";".join(out) or "-"
+    return ";".join(sorted(out)) or "-"
 
 
 def enc_sel(f):
@@ -447,8 +495,8 @@ def repo_state(wt):
 
 
 class Tee:
-    """records the ids that reach record_iter_changes (call-through wrapper
-    around Commit._filter_iter_changes, restored afterwards)"""
+    """records the ids of the change stream after filter_excluded, i.e. what is fed to
+    Commit._filter_iter_changes (call-through wrapper, restored afterwards)"""
 
     def __enter__(self):
         from breezy import commit as _c
@@ -459,10 +507,12 @@ class Tee:
         tee = self
 
         def wrapped(cself, it):
-            for ch in tee.orig(cself, it):
-                tee.ids.append(ch.file_id.decode() if ch.file_id is not None else None)
-                tee.pairs.append(tuple(ch.path))
-                yield ch
+            def src():
+                for ch in it:
+                    tee.ids.append(ch.file_id.decode() if ch.file_id is not None else None)
+                    tee.pairs.append(tuple(ch.path))
+                    yield ch
+            return tee.orig(cself, src())
         _c.Commit._filter_iter_changes = wrapped
         return self
 
@@ -481,7 +531,7 @@ def status_ids(wt):
     return out
 
 
-def run_bzr_query(base, basis, wtsnap, sel, excl):
+def run_bzr_query(base, basis, wtsnap, sel, excl, variant="strict"):
     """one commit(specific_files=sel, exclude=excl) on a copy; returns dict(impl, viol, counters)"""
     from breezy.workingtree import WorkingTree
     d = copy_tree(base)
@@ -496,12 +546,20 @@ def run_bzr_query(base, basis, wtsnap, sel, excl):
             except Exception as e:  # noqa
                 err = e
         S = sorted(set(i for i in tee.ids if i is not None))
+        bp, wp = paths_of(basis), paths_of(wtsnap)
+        # ids of the change stream that sit where another entry used to be (path vacated by a move / removal)
+        vac = sorted(i for i in S if any(j != i and bp.get(j) is not None and bp.get(j) == wp.get(i) and wp.get(j) != bp.get(j)
+                                         for j in set(basis)))
         wt = WorkingTree.open(d)
         revs1, tip1 = repo_state(wt)
         wt1 = snap_wt(wt)
         basis1 = snap_rev(wt.basis_tree())
         bp, wp = paths_of(basis), paths_of(wtsnap)
         eff = {i: e for i, e in wtsnap.items() if e["kind"] != "missing"}
+        # a selected path below something that is not a directory on disk (compiled dirstate comparison lstat()s it)
+        ondisk = {wp[i]: e["kind"] for i, e in wtsnap.items() if wp.get(i) is not None}
+        below = any(ondisk.get("/".join(p.split("/")[:k])) in ("file", "symlink", "missing")
+                    for p in list(sel or []) + [q for q in bp.values() if q] for k in range(1, len(p.split("/"))))
         if err is not None:
             impl = err_kind(err)
             counters.append("bzr:" + impl.split(":")[1])
@@ -514,9 +572,14 @@ def run_bzr_query(base, basis, wtsnap, sel, excl):
                 viol.append(("commit raised %s but the basis tree changed" % impl, None))
             if wt1 != wtsnap:
                 viol.append(("commit raised %s but the working inventory changed" % impl, None))
-            return dict(impl=impl, S=S, viol=viol, counters=counters)
+            return dict(impl=impl, S=S, vac=vac, viol=viol, counters=counters, below=below)
         counters.append("bzr:ok")
-        new = snap_rev(wt.branch.repository.revision_tree(rid))
+        unreadable = None
+        try:
+            new = snap_rev(wt.branch.repository.revision_tree(rid))
+        except Exception as e:  # noqa
+            unreadable = "%s: %s" % (type(e).__name__, str(e)[:160])
+            new = snap_rev_lenient(wt.branch.repository.revision_tree(rid))
         missing1 = sorted(i for i, e in wt1.items() if e["kind"] == "missing")
         impl = "ok %s %s %s %s" % (enc_ids(S), enc_tree(new), enc_ids(wt1), enc_ids(missing1))
         # ---- oracle
@@ -526,6 +589,17 @@ def run_bzr_query(base, basis, wtsnap, sel, excl):
             b, w_ = bp.get(i), wp.get(i)
             if (sel is None or inside(sel, b) or inside(sel, w_)) and not inside(excl, b) and not inside(excl, w_):
                 must.add(i)
+        presel = {i for i in allids if sel is None or inside(sel, bp.get(i)) or inside(sel, wp.get(i))}
+        # a selected directory selects its contents in either tree (find_ids_across_trees semantics)
+        grew = True
+        while grew:
+            grew = False
+            for i in allids - must:
+                if inside(excl, bp.get(i)) or inside(excl, wp.get(i)):
+                    continue
+                if basis.get(i, {}).get("parent") in must or wtsnap.get(i, {}).get("parent") in must:
+                    must.add(i)
+                    grew = True
         # O1
         for i in sorted(must):
             if new.get(i) != eff.get(i):
@@ -541,20 +615,34 @@ def run_bzr_query(base, basis, wtsnap, sel, excl):
             if inside(excl, bp.get(i)) or inside(excl, wp.get(i)):
                 viol.append(("O2 excluded id %s (paths %r, %r) was committed" % (i, bp.get(i), wp.get(i)), None))
                 continue
-            if not justified(i, recorded, basis, eff, bp, wp):
+            if not justified(i, recorded, must | presel, basis, wtsnap, eff, bp, wp):
                 fam = None
-                if any(j != i and bp.get(j) is not None and bp.get(j) == wp.get(i) and wp.get(j) != bp.get(j)
-                       for j in recorded):
+                if i in vac:
                     fam = "dirstate-unselected-entry-at-vacated-path"
                 counters.append("bzr:unselected-committed")
                 viol.append(("O2 the pending change of unselected id %s (basis path %r, working path %r) was committed with "
                              "specific_files=%r exclude=%r" % (i, bp.get(i), wp.get(i), sel, excl), fam))
         # O3
+        np_ = paths_of(new)
+        for i in sorted(must):
+            if i in eff and i in new and np_.get(i) != wp.get(i):
+                viol.append(("O3 selected id %s is at %r in the new revision but at %r in the working tree" % (i, np_.get(i), wp.get(i)), None))
         bad = wf_tree(new)
-        if bad:
-            viol.append(("O3 new revision tree is ill-formed: %s" % bad[:3], None))
+        if bad or unreadable:
+            fam = None
+            # the removal / move of a child was excluded while its parent was recorded as a non-directory
+            if excl and bad and all("is not a directory" in b_ for b_ in bad) and all(
+                    basis.get(j, {}).get("parent") == new[j]["parent"] and (inside(excl, bp.get(j)) or inside(excl, wp.get(j)))
+                    for j in new if new[j]["parent"] in new and new[new[j]["parent"]]["kind"] != "directory"):
+                fam = "excluded-child-left-below-non-directory"
+            counters.append("bzr:ill-formed-commit")
+            viol.append(("O3 the new revision tree is ill-formed: %s%s" % (bad[:3], "; reading it back fails with " + unreadable
+                                                                          if unreadable else ""), fam))
         # O4
         pend0 = {i for i in allids if basis.get(i) != wtsnap.get(i)}
+        if unreadable:
+            counters.append("bzr:recorded:%d" % min(len(S), 6))
+            return dict(impl=impl, S=S, vac=vac, viol=viol, counters=counters, below=below)
         pend1 = {x[0] for x in status_ids(wt)}
         if pend1 & must:
             viol.append(("O4 selected ids still reported as changed after the commit: %r" % sorted(pend1 & must), None))
@@ -576,24 +664,24 @@ def run_bzr_query(base, basis, wtsnap, sel, excl):
         if tip1 != (tip0[0] + 1, rid) or sorted(set(revs0) | {rid}) != revs1:
             viol.append(("O5 tip %r -> %r, revisions +%r" % (tip0, tip1, sorted(set(revs1) - set(revs0))), None))
         counters.append("bzr:recorded:%d" % min(len(S), 6))
-        return dict(impl=impl, S=S, viol=viol, counters=counters)
+        return dict(impl=impl, S=S, vac=vac, viol=viol, counters=counters, below=below)
     finally:
         shutil.rmtree(d, ignore_errors=True)
 
 
-def justified(i, recorded, basis, eff, bp, wp):
+def justified(i, recorded, must, basis, wtsnap, eff, bp, wp):
     """may the unselected id i change in a partial commit?  only to keep the
     new tree well-formed"""
     others = recorded - {i}
-    # ancestor directory (in the working tree) of another recorded entry
-    for j in others:
-        k = eff.get(j, {}).get("parent")
+    # ancestor directory (in the working inventory, missing entries included) of a selected or recorded entry
+    for j in (others | must) - {i}:
+        k = wtsnap.get(j, {}).get("parent")
         seen = set()
         while k is not None and k not in seen:
             if k == i:
                 return True
             seen.add(k)
-            k = eff.get(k, {}).get("parent")
+            k = wtsnap.get(k, {}).get("parent")
     # displaced: i sits in the basis where another recorded entry goes
     if any(wp.get(j) is not None and wp.get(j) == bp.get(i) and j in eff for j in others):
         return True
@@ -717,6 +805,9 @@ def run_git_query(base, basis, wtsnap, changes, sel, excl):
                 viol.append(("O4 path %r was committed as %r but the working tree now has %r (versioned before the commit: %r)"
                              % (p, new.get(p), wt1.get(p), p in wtsnap), fam))
         for p in sorted(allp - recorded):
+            if wtsnap.get(p, {}).get("kind") == "missing" and p not in wt1 and (
+                    sel is None or inside_or_parent(sel, p)) and not inside(excl, p):
+                continue        # a selected missing path is unversioned by the commit (deleted_paths)
             if wt1.get(p) != wtsnap.get(p):
                 viol.append(("O4 unrecorded path %r changed in the index: %r -> %r" % (p, wtsnap.get(p), wt1.get(p)), None))
         if basis1 != new:
@@ -954,7 +1045,10 @@ def run_transport_fault(script, k):
             rc, tc = revs1 != revs0, tip1 != tip0
             if rc or tc:
                 fam = None
-                if rc and not tc and after_names:
+                if rc and not tc and after_names and at == ("put_bytes", "branch/last-revision"):
+                    # the write of the tip itself failed: same call site as the stage fault `setTip`
+                    fam = "revision-left-after-late-exception:set_last_revision_info"
+                elif rc and not tc and after_names:
                     fam = "revision-left-after-late-exception:transport-fault-after-pack-names"
                 viol.append(("commit raised %s at mutating transport call %d %r but %s" % (
                     type(raised).__name__, k, at, "all_revision_ids gained 'new'" if rc else "the tip moved"), fam))
@@ -976,14 +1070,15 @@ def run_transport_fault(script, k):
 
 def scenario_worker(args):
     import random
-    fmt, seed, tier, nq, faults = args
+    fmt, seed, tier, nq, faults, variant = args
     rng = random.Random(seed)
     pick = (lambda q, t: t) if tier == "thorough" else (lambda q, t: q)
     recs = []
     try:
         w, script = build_script(fmt, rng, pick)
     except Exception as e:  # infrastructure problem while building: report, do not hide
-        return [dict(kind="build-error", error="%s: %s" % (type(e).__name__, e), seed=seed, fmt=fmt)]
+        import traceback
+        return [dict(kind="build-error", error="%s: %s\n%s" % (type(e).__name__, e, traceback.format_exc()[-900:]), seed=seed, fmt=fmt)]
     try:
         wt = w.wt
         if fmt == "bzr":
@@ -994,9 +1089,10 @@ def scenario_worker(args):
                 r = run_bzr_query(w.base, basis, wtsnap, sel, excl)
                 case = dict(fmt=fmt, script=script, sel=sel, excl=excl, basis=enc_tree(basis), wt=enc_tree(wtsnap))
                 recs.append(dict(kind="bzr", case=case, npend=npend,
-                                 line="commit %s %s %s %s" % (enc_sel(sel), enc_paths(excl), enc_tree(basis), enc_tree(wtsnap)),
-                                 line2="from %s %s %s" % (enc_ids(r["S"]), enc_tree(basis), enc_tree(wtsnap)),
-                                 impl=r["impl"], S=r["S"], viol=r["viol"], counters=r["counters"]))
+                                 line="commit %s %s %s %s %s" % (variant, enc_sel(sel), enc_paths(excl), enc_tree(basis), enc_tree(wtsnap)),
+                                 line2="from %s %s %s %s" % (variant, enc_ids(r["S"]), enc_tree(basis), enc_tree(wtsnap)),
+                                 line3="ids %s %s %s %s" % (enc_sel(sel), enc_paths(excl), enc_tree(basis), enc_tree(wtsnap)),
+                                 impl=r["impl"], S=r["S"], vac=r["vac"], below=r["below"], viol=r["viol"], counters=r["counters"]))
             if faults:
                 for stage in [None] + STAGES:
                     for when in (("first", "last") if stage in ("collect", "finishInv") else ("first",)):
@@ -1015,6 +1111,13 @@ def scenario_worker(args):
                 eff = {p: e for p, e in wtsnap.items() if e["kind"] != "missing"}
                 case = dict(fmt=fmt, script=script, sel=sel, excl=excl, basis=enc_gtree(basis), wt=enc_gtree(eff),
                             changes=enc_gchanges(changes))
+                if sel == [] and not any(op[0] == "commit" for op in script):
+                    # first commit that selects nothing: GitCommitBuilder refuses (no root); outside the tree model
+                    if r["impl"] != "E:RootMissing":
+                        r["viol"].append(("first commit with specific_files=[] gave %s, expected RootMissing" % r["impl"][:40], None))
+                    recs.append(dict(kind="git-rootmissing", case=case, npend=npend, line=None, impl=r["impl"], viol=r["viol"],
+                                     counters=r["counters"]))
+                    continue
                 recs.append(dict(kind="git", case=case, npend=npend,
                                  line="git %s %s %s %s %s" % (enc_sel(sel), enc_paths(excl), enc_gchanges(changes),
                                                               enc_gtree(basis), enc_gtree(eff)),
@@ -1068,17 +1171,20 @@ def absorb(ctx, recs):
         ctx.count("pending:%d" % min(r["npend"], 8))
         for what, fam in r["viol"]:
             ctx.violation(r["case"], what, family=fam)
+        if r["line"] is None:
+            continue
         lines.append(r["line"])
         cases.append(r["case"])
         impls.append(r["impl"])
         kinds.append(r["kind"])
         extra.append(r)
         if r["kind"] == "bzr":
-            lines.append(r["line2"])
-            cases.append(r["case"])
-            impls.append(r["impl"])
-            kinds.append("bzr-from")
-            extra.append(r)
+            for key, kd in (("line2", "bzr-from"), ("line3", "bzr-ids")):
+                lines.append(r[key])
+                cases.append(r["case"])
+                impls.append(r["impl"])
+                kinds.append(kd)
+                extra.append(r)
     if not lines:
         return
     outs = ctx.model(lines)
@@ -1086,23 +1192,27 @@ def absorb(ctx, recs):
     while k < len(lines):
         r = extra[k]
         if kinds[k] == "bzr":
-            m_commit, m_from = outs[k], outs[k + 1]
+            m_commit, m_from, m_ids = outs[k], outs[k + 1], outs[k + 2]
             ctx.traces += 2
-            if m_from != r["impl"]:
+            if r["impl"] in ("E:AssertionError", "E:OSError", "E:NotADirectoryError") and r["below"] and r["case"].get("sel") is not None:
+                # known behaviour of the compiled comparison (C10: dirstate-lstat-below-non-directory): the commit is
+                # refused (possibly after part of the change stream was produced); the oracle has checked that nothing changed
+                ctx.count("bzr:dirstate-lstat-below-non-directory")
+                k += 3
+                continue
+            early = r["impl"].startswith("E:PathsNotVersioned")
+            if m_from != r["impl"] and not early:
                 ctx.mismatch(r["case"], r["impl"], m_from, line=lines[k + 1], tie="T2 from")
             if m_commit != r["impl"]:
                 # the only tolerated difference: the compiled dirstate comparison reported more ids than the
-                # InterInventoryTree closure and the oracle has flagged the extra ids as a finding
-                ms = set(m_commit.split(" ")[1].split(",")) - {"-"} if m_commit.startswith("ok ") else None
-                flagged = any(f == "dirstate-unselected-entry-at-vacated-path" for _, f in r["viol"])
-                if ms is not None and ms < set(r["S"]) and m_from == r["impl"] and flagged:
+                # InterInventoryTree closure, every extra id sits at a path vacated by another entry, and the rest
+                # of the pipeline behaves as the model says for the observed ids (`from` line)
+                ms = None if m_ids.startswith("E:") or m_ids == "bad-op" else set(m_ids.split(",")) - {"-"}
+                if ms is not None and ms < set(r["S"]) and set(r["S"]) - ms <= set(r["vac"]) and m_from == r["impl"]:
                     ctx.count("bzr:dirstate-superset")
-                elif (ms is not None and ms < set(r["S"]) and m_from == r["impl"] and r["impl"].startswith("ok ")
-                      and set(r["S"]) - ms <= unchanged_extra(r)):
-                    ctx.count("bzr:dirstate-superset-harmless")
                 else:
                     ctx.mismatch(r["case"], r["impl"], m_commit, line=lines[k], tie="T2 commit")
-            k += 2
+            k += 3
         else:
             ctx.traces += 1
             if outs[k] != r["impl"]:
@@ -1110,20 +1220,21 @@ def absorb(ctx, recs):
             k += 1
 
 
-def unchanged_extra(r):
-    """ids reported by the dirstate comparison whose recorded entry equals the basis entry (no effect on the result)"""
-    return set()
-
-
 def run(ctx):
+    global VARIANT
+    variant = VARIANT = probe_validation()
+    ctx.extra["validation_variant"] = variant
+    if variant not in ("strict", "lax"):
+        ctx.mismatch(dict(kind="probe"), variant, "strict | lax")
+        variant = VARIANT = "strict"
     nsc = ctx.pick(14, 70)
     ngit = ctx.pick(8, 40)
     nq = ctx.pick(7, 14)
     jobs = []
     for k in range(nsc):
-        jobs.append(("bzr", ctx.rng.randrange(1 << 30), ctx.tier, nq, k % ctx.pick(5, 3) == 0))
+        jobs.append(("bzr", ctx.rng.randrange(1 << 30), ctx.tier, nq, k % ctx.pick(5, 3) == 0, variant))
     for k in range(ngit):
-        jobs.append(("git", ctx.rng.randrange(1 << 30), ctx.tier, nq, False))
+        jobs.append(("git", ctx.rng.randrange(1 << 30), ctx.tier, nq, False, variant))
     tjobs = [(ctx.rng.randrange(1 << 30), ctx.tier) for _ in range(ctx.pick(2, 8))]
     # corpus first
     cdir = os.path.join(env.VERIF, "corpus", "C01")
@@ -1153,8 +1264,15 @@ def run(ctx):
         ctx.mismatch(dict(kind="scenario-error"), ctx.extra["scenario_errors"][0], "scenario built and ran")
 
 
+VARIANT = None
+
+
 def replay_records(case):
     """re-run one recorded case; returns worker-style records"""
+    global VARIANT
+    if VARIANT is None:
+        VARIANT = probe_validation()
+    variant = VARIANT if VARIANT in ("strict", "lax") else "strict"
     fmt = case.get("fmt", "bzr")
     script = [tuple(op) for op in case["script"]]
     if fmt == "bzr-checkout":
@@ -1172,9 +1290,10 @@ def replay_records(case):
             basis, wtsnap = snap_rev(wt.basis_tree()), snap_wt(wt)
             r = run_bzr_query(w.base, basis, wtsnap, sel, excl)
             return [dict(kind="bzr", case=case, npend=1,
-                         line="commit %s %s %s %s" % (enc_sel(sel), enc_paths(excl), enc_tree(basis), enc_tree(wtsnap)),
-                         line2="from %s %s %s" % (enc_ids(r["S"]), enc_tree(basis), enc_tree(wtsnap)),
-                         impl=r["impl"], S=r["S"], viol=r["viol"], counters=r["counters"])]
+                         line="commit %s %s %s %s %s" % (variant, enc_sel(sel), enc_paths(excl), enc_tree(basis), enc_tree(wtsnap)),
+                         line2="from %s %s %s %s" % (variant, enc_ids(r["S"]), enc_tree(basis), enc_tree(wtsnap)),
+                         line3="ids %s %s %s %s" % (enc_sel(sel), enc_paths(excl), enc_tree(basis), enc_tree(wtsnap)),
+                         impl=r["impl"], S=r["S"], vac=r["vac"], below=r["below"], viol=r["viol"], counters=r["counters"])]
         basis, wtsnap = gsnap_rev(wt.basis_tree()), gsnap_wt(wt)
         changes = git_changes(wt)
         r = run_git_query(w.base, basis, wtsnap, changes, sel, excl)
